@@ -6,6 +6,8 @@ def stages(tier):
          "timeout": 300, "timeout_thorough": 1800},
         {"name": "concurrent", "cmd": "cacheconc", "args": [], "check": "forced janitor cycle between the two counter updates of a store: bytes metric = byteSize at quiescence (direct; also runs the C01 overlap/stress scenarios)",
          "timeout": 300, "timeout_thorough": 1200},
+        {"name": "evictoverwrite", "cmd": "cachesched", "args": ["-prop", "C12"], "check": "an eviction candidate overwritten with another length between the eviction's scan and its removal: byte counter and metric equal what is stored (forced schedule at the cache API, direct)",
+         "timeout": 120, "timeout_thorough": 300},
     ]
 
 TRUSTED = [
